@@ -56,6 +56,58 @@ type c19World struct {
 	dir    string
 	w      *c19Writer
 	stream uint64
+	seq    uint64 // sequence numbers of injected peer announcements
+}
+
+// c19Peer is the id of mesh peer k (1..3).
+func c19Peer(k int) identity.AgentID {
+	var id identity.AgentID
+	id[0], id[15] = 0xC1, byte(k)
+	return id
+}
+
+// c19PeerFrame injects a ROUTE_WITHDRAW / ROUTE_ADVERTISE for the network, as received from peer
+// `from`, naming `origin` ("self" = this agent, which a peer is free to claim) as its origin.
+func c19PeerFrame(kind, netTok, origin string, from int, metric uint16) string {
+	ip, bits := c19ParseNet(netTok)
+	_, ipn, err := net.ParseCIDR(c19CIDR(netTok))
+	must(err)
+	fam := uint8(protocol.AddrFamilyIPv4)
+	prefix := []byte(ipn.IP)
+	if len(ip) == 16 {
+		fam = protocol.AddrFamilyIPv6
+		prefix = []byte(ipn.IP.To16())
+	}
+	var org identity.AgentID
+	if origin == "self" {
+		org = c19W.a.ID()
+	} else {
+		org = c19Peer(int(origin[0] - '0'))
+	}
+	c19W.seq++
+	routes := []protocol.Route{{AddressFamily: fam, PrefixLength: uint8(bits), Prefix: prefix, Metric: metric}}
+	var fr *protocol.Frame
+	if kind == "withdraw" {
+		fr = &protocol.Frame{Type: protocol.FrameRouteWithdraw, Payload: (&protocol.RouteWithdraw{OriginAgent: org, Sequence: 1<<40 + c19W.seq, Routes: routes}).Encode()}
+	} else {
+		fr = &protocol.Frame{Type: protocol.FrameRouteAdvertise, Payload: (&protocol.RouteAdvertise{OriginAgent: org, Sequence: 1<<40 + c19W.seq, Routes: routes,
+			Path: []identity.AgentID{org}}).Encode()}
+	}
+	c19W.a.VerifC19Frame(c19Peer(from), fr)
+	return "ok"
+}
+
+// c19DynList renders the manager's own list of dynamic routes (sorted keys).
+func c19DynList() string {
+	var dyn []string
+	for _, r := range c19W.a.VerifC19DynamicRoutes() {
+		dyn = append(dyn, c19Key(r.Network))
+	}
+	sort.Strings(dyn)
+	if len(dyn) == 0 {
+		return "-"
+	}
+	return strings.Join(dyn, ",")
 }
 
 var (
@@ -158,15 +210,18 @@ func c19Reset(f []string) string {
 
 func c19Manage(action, netTok string, metric uint16) string {
 	_, err := c19W.a.ManageRoute(action, c19CIDR(netTok), metric)
+	res := "err other"
 	switch {
 	case err == nil:
-		return "ok"
+		res = "ok"
 	case strings.Contains(err.Error(), "config route"):
-		return "err config-route"
-	case strings.Contains(err.Error(), "not found"):
-		return "err not-found"
+		res = "err config-route"
+	case strings.HasSuffix(err.Error(), "not found"):
+		res = "err not-found"
 	}
-	return "err other"
+	// every answer carries what the manager lists afterwards: whatever the API said, a network
+	// the manager no longer lists must not stay permitted
+	return res + " dyn " + c19DynList()
 }
 
 func c19Open(tok string) string {
@@ -278,6 +333,15 @@ func c19Run(line string) string {
 		return c19Open(f[1])
 	case f[0] == "state":
 		return c19State()
+	case (f[0] == "withdraw" || f[0] == "advertise") && len(f) == 4:
+		// withdraw|advertise <net> <self|1|2|3> <from-peer 1..3>
+		return c19PeerFrame(f[0], f[1], f[2], int(f[3][0]-'0'), 3)
+	case f[0] == "peerdown" && len(f) == 2:
+		c19W.a.VerifC19PeerGone(c19Peer(int(f[1][0] - '0')))
+		return "ok"
+	case f[0] == "stale":
+		c19W.a.VerifC19Stale()
+		return "ok"
 	}
 	return "bad-op"
 }
@@ -353,9 +417,50 @@ func c19Gen(w *bufio.Writer, seed int64, tier string) {
 			fmt.Fprintf(w, "add 7f4d0000/16 1\nopen n:%s:%s\nremove 7f4d0000/16\nopen n:%s:%s\n", hx("other.org"), outside, hx("other.org"), outside)
 		}
 	}
+	// perturbation cases: add X; something removes/replaces X's routing-table entry; remove X (and
+	// retry, as an operator would after an error); X must be gone from the allow list
+	perturbCase := func() {
+		x := r.pickS("7f010000/16", "7f010200/24", "7f000000/8", mapped(127, 1, 0, 0)+"/112")
+		e := "0"
+		if r.chance(50) {
+			e = "1"
+		}
+		cfgn := "-"
+		if e == "1" && r.chance(50) {
+			cfgn = "7f030000/16"
+		}
+		fmt.Fprintf(w, "reset %s %s -\nadd %s %d\n", e, cfgn, x, r.pick(1, 5))
+		if r.chance(40) {
+			fmt.Fprintf(w, "add 7f020000/15 1\n") // an unrelated dynamic route stays
+		}
+		for k := 1 + r.intn(2); k > 0; k-- {
+			switch r.intn(5) {
+			case 0, 1:
+				fmt.Fprintf(w, "withdraw %s self %d\n", x, 1+r.intn(3))
+			case 2:
+				fmt.Fprintf(w, "advertise %s self %d\nwithdraw %s self %d\n", x, 1+r.intn(3), x, 1+r.intn(3))
+			case 3:
+				fmt.Fprintf(w, "advertise %s 1 1\npeerdown 1\nstale\n", x)
+			default:
+				fmt.Fprintf(w, "withdraw %s 2 2\n", x)
+			}
+		}
+		fmt.Fprintf(w, "open i:7f010203\nremove %s\n", x)
+		if r.chance(70) {
+			fmt.Fprintf(w, "remove %s\n", x)
+		}
+		fmt.Fprintf(w, "state\nopen i:7f010203\nopen i:7f000001\nopen i:7f020304\n")
+		if r.chance(50) { // life goes on: re-add and remove normally
+			fmt.Fprintf(w, "add %s 7\nopen i:7f010203\nremove %s\nstate\nopen i:7f010203\n", x, x)
+		}
+	}
 	for c := 0; c < cases; c++ {
 		if r.chance(30) {
 			domainCase()
+			continue
+		}
+		if r.chance(25) {
+			perturbCase()
 			continue
 		}
 		exitOn := r.chance(60)
@@ -391,6 +496,19 @@ func c19Gen(w *bufio.Writer, seed int64, tier string) {
 			n = 40 + r.intn(40) // long histories
 		}
 		for k := 0; k < n; k++ {
+			if r.chance(22) { // the routing table changes underneath: peer traffic, disconnects, expiry
+				switch r.intn(6) {
+				case 0, 1:
+					fmt.Fprintf(w, "withdraw %s %s %d\n", pick(work), r.pickS("self", "self", "1", "2"), 1+r.intn(3))
+				case 2, 3:
+					fmt.Fprintf(w, "advertise %s %s %d\n", pick(work), r.pickS("self", "1", "2", "3"), 1+r.intn(3))
+				case 4:
+					fmt.Fprintf(w, "peerdown %d\n", 1+r.intn(3))
+				default:
+					fmt.Fprintf(w, "stale\n")
+				}
+				continue
+			}
 			switch x := r.intn(10); {
 			case x < 4:
 				fmt.Fprintf(w, "add %s %d\n", pick(work), r.pick(0, 1, 5, 7, 65535))
